@@ -361,6 +361,11 @@ def run(ctx, eng):
                                  'ORD.init-length'},
                'a body sent with the matching content-length is accepted: '
                'the receiver counts payload octets only')
-    cm.include(ctx, eng, 'C20', {'ORD.decode-first'},
+    cm.include(ctx, eng, 'C20', {'ORD.decode-first', 'FSM.layer3'},
                'every header block the peer encoded reaches the decoder, '
-               'or the two compression contexts part')
+               'or the two compression contexts part; a frame the peer sent '
+               'while it still saw the stream open is tolerated once the '
+               'stream is gone here')
+    cm.include(ctx, eng, 'C05', {'ARITH.increment'},
+               'the credit announced to the peer is the credit recorded '
+               'here, or a send the peer was entitled to is refused')
